@@ -50,9 +50,18 @@ var c15Docs = []c15Doc{
 	{"a: 3\nc:\n  d: 2\n  e: 3\n", []string{"--app.config=a=3", "--app.config=c.d=2", "--app.config=c.e=3"}},
 	// keys spelled like variables of the process environment (PATH, HOME)
 	{"path: p1\nhome:\n  dir: h1\n", []string{"--app.config=path=p1", "--app.config=home.dir=h1"}},
+	{c15NullYaml, nil},
 }
 
 var c15Paths = []string{"a", "b", "c.d", "c.e", "path", "home.dir"}
+
+// c15NullDoc: a source that supplies a scalar key with a null value: the last supplier wins also
+// when what it supplies is "nothing" (a null over a whole subtree is left out: what a deep merge does
+// with it is not fixed by the statement, and viper keeps the subtree). Its index is len(c15Docs)-1; the
+// general alphabets stop before it (c15Main).
+const c15NullYaml = "a: ~\nb: 1\n"
+
+var c15Main = 7
 
 type c15Step struct {
 	Way  string `json:"way"`  // set add file direct
@@ -78,7 +87,7 @@ type c15Holder struct {
 func c15Gen(c *core.Ctx) func(yield func(c15Case) bool) {
 	return func(yield func(c15Case) bool) {
 		var steps []c15Step
-		for d := range c15Docs {
+		for d := 0; d < c15Main; d++ {
 			for _, w := range []string{"set", "add", "direct"} {
 				for _, k := range []string{"raw", "file", "args"} {
 					steps = append(steps, c15Step{Way: w, Kind: k, Doc: d})
@@ -107,7 +116,7 @@ func c15Gen(c *core.Ctx) func(yield func(c15Case) bool) {
 		// the same documents in files called differently (the name of a file says nothing about the
 		// other sources): all histories of <= 2 steps
 		var named []c15Step
-		for d := range c15Docs {
+		for d := 0; d < c15Main; d++ {
 			for _, w := range []string{"set", "add"} {
 				for _, k := range []string{"raw", "args"} {
 					named = append(named, c15Step{Way: w, Kind: k, Doc: d})
@@ -120,6 +129,40 @@ func c15Gen(c *core.Ctx) func(yield func(c15Case) bool) {
 			}
 		}
 		if !rec(nil, 2, named) {
+			return
+		}
+		// a source that supplies nulls, before and after every other source (raw and file, every way)
+		var nulls []c15Step
+		for d := 0; d < len(c15Docs); d++ {
+			for _, w := range []string{"set", "add", "direct"} {
+				for _, k := range []string{"raw", "file"} {
+					nulls = append(nulls, c15Step{Way: w, Kind: k, Doc: d})
+				}
+			}
+		}
+		var recN func(cur []c15Step) bool
+		recN = func(cur []c15Step) bool {
+			hasNull := false
+			for _, s := range cur {
+				hasNull = hasNull || s.Doc == len(c15Docs)-1
+			}
+			if hasNull && !yield(c15Case{append([]c15Step{}, cur...)}) {
+				return false
+			}
+			if len(cur) == 3 {
+				return true
+			}
+			for _, s := range nulls {
+				if len(cur) == 2 && !hasNull && s.Doc != len(c15Docs)-1 {
+					continue
+				}
+				if !recN(append(cur[:len(cur):len(cur)], s)) {
+					return false
+				}
+			}
+			return true
+		}
+		if !recN(nil) {
 			return
 		}
 		if c.Thorough() {
@@ -156,6 +199,13 @@ func c15Flatten(prefix string, m map[string]any, out map[string]string) {
 		}
 		if sm, ok := v.(map[string]any); ok {
 			c15Flatten(p, sm, out)
+		} else if v == nil {
+			// a null: this source supplies "nothing" for the key and for everything below it
+			for _, q := range c15Paths {
+				if q == p || strings.HasPrefix(q, p+".") {
+					out[q] = "<null>"
+				}
+			}
 		} else {
 			out[p] = fmt.Sprint(v)
 		}
@@ -296,6 +346,15 @@ func c15Run(c *core.Ctx) {
 		sort.Strings(ps)
 		for _, p := range ps {
 			adm := admissible[p]
+			if adm["<null>"] {
+				// the last supplier gave a null: the key reads as absent
+				if got[p] != "" {
+					c.Outcome("wrong-value")
+					c.Report(key, "wrong-value", fmt.Sprintf("%s: effective value of %q is %q, but the last source that supplies it gives a null", desc(), p, got[p]), cs)
+					return
+				}
+				continue
+			}
 			if !adm[got[p]] {
 				var want []string
 				for v := range adm {
@@ -342,7 +401,7 @@ func c15Reuse(c *core.Ctx) {
 	c15Setup()
 	gen := func(yield func(c15ReuseCase) bool) {
 		var ls []c15Step
-		for d := range c15Docs {
+		for d := 0; d < c15Main; d++ {
 			for _, k := range []string{"raw", "file", "args"} {
 				ls = append(ls, c15Step{Kind: k, Doc: d})
 			}
